@@ -26,7 +26,9 @@ ASSUMPTIONS = [
     "checks run under TF_USE_LEGACY_KERAS=1 (tf_keras), float32, eager",
     "reported types are read from QTools._output_dict (int_bits includes the "
     "sign bit); po2 exponent interval as in the Shifter docstring; 0 is a "
-    "member of every type",
+    "member of every type; a po2 type with a max_value that is not a power of "
+    "two holds exponents up to ceil(log2(max_value)) (quantized_po2 rounds log2 "
+    "after clipping, 6 -> 8, and get_exp documents the same ceil)",
     "pre-activations are recomputed in float64 from the real layer input and "
     "the real quantized weights; float64 is exact because the span of the "
     "operands (checked per layer) is <= 52 bits; the step of the accumulator "
@@ -46,7 +48,8 @@ BUDGET_S = {"quick": 50, "thorough": 780}
 REQUIRED_LABELS = {
     "quick": ["edge", "model", "aa", "tight", "very_tight", "exact_f32", "bias", "nobias",
               "k:dense", "k:conv1d", "k:conv2d", "k:dw2d", "kq:qb", "kq:po2",
-              "kq:bin", "kq:ter", "kq:qb_auto_po2", "x:aligned", "lead_act",
+              "kq:bin", "kq:ter", "kq:qb_auto_po2", "kq_max_value_not_po2",
+              "x:aligned", "lead_act",
               "aa:QDense", "aa:QConv2D", "aa:QConv1D", "aa:QDepthwiseConv2D"],
 }
 REQUIRED_LABELS["thorough"] = REQUIRED_LABELS["quick"] + ["inexact_f32"]
@@ -360,6 +363,9 @@ def labels_model(case):
     if l["k"] in G.COMPUTE:
       labs += ["k:" + l["k"], "kq:" + G.q_family(l["kq"]), "w:" + l["wmode"],
                "bias" if l["bias"] else "nobias"]
+      mv = l["kq"].get("mv")
+      if mv is not None and np.log2(mv) != np.round(np.log2(mv)):
+        labs.append("kq_max_value_not_po2")
       if l["bias"]:
         labs.append("bq:" + G.q_family(l["bq"]))
     elif l["k"] == "act":
@@ -628,6 +634,7 @@ def edge_cases(tier):
   kernels = [qb(3, 0, 0, 1.0), qb(4, 1, 1, 1.0), qb(4, 0, 0, "auto_po2"),
              {"t": "po2", "bits": 3, "mv": None}, {"t": "po2", "bits": 4, "mv": None},
              {"t": "po2", "bits": 4, "mv": 4.0}, {"t": "po2", "bits": 4, "mv": 1.0},
+             {"t": "po2", "bits": 4, "mv": 6.0},
              {"t": "bin"}, {"t": "ter"}]
   biases = [None, qb(4, 1, 0, 1.0), {"t": "po2", "bits": 3, "mv": None}]
   modes = [("max", "max"), ("min", "max"), ("min", "min"), ("max", "min"),
